@@ -505,6 +505,16 @@ class C15(FMonitor):
                         led.V("C15", "first-available-lowest-index", "%s used %s (index %d) although its request on %s (index %d) had been granted too"
                               % (led.nid(node), t.edge.id, idx[id(t.edge)], s.edge.id, idx[id(s.edge)]), node=tname(node), side=t.side)
                         return
+                    # ... or could have been: a lower-index out-edge with a free place nobody else holds a reservation for
+                    if (t.side == "p" and not s.was_triggered and idx.get(id(s.edge), 99) < idx.get(id(t.edge), -1)
+                            and tname(s.edge) in ("Buffer", "Fleet")):
+                        others = [g for g in led.live_tokens(s.edge, "p", "granted") if g.batch != t.batch]
+                        free = s.edge.capacity - led.held(s.edge) - len(others)
+                        if free > 0:
+                            led.V("C15", "first-available-lowest-index", "%s used %s (index %d) although %s (index %d) had %d free place(s) nobody else had reserved: its request there was never granted"
+                                  % (led.nid(node), t.edge.id, idx[id(t.edge)], s.edge.id, idx[id(s.edge)], free), node=tname(node), side=t.side,
+                                  lower_edge_had_room=True)
+                            return
 
     def on_finish(self, led, T):
         self.final(led)
